@@ -1022,6 +1022,10 @@ class ExprToAccessC(ExprReducer):
                              void_type.align, void_type.size)
             new_type = set([nobj])
 
+        elif isinstance(base_type, ObjCFunc):
+            # Nothing can be accessed inside a function
+            return set()
+
         else:
             raise NotImplementedError("deref type %r" % base_type)
         return new_type
